@@ -28,7 +28,9 @@ NB(c) == c.L \div c.B                                  \* floor(L/B) batches, th
 TInit(c) == /\ cfg = c /\ epoch = 0 /\ phase = "check" /\ best = INF /\ bestModel = 0 /\ since = 0
             /\ stopped = FALSE /\ version = 0 /\ step = 0 /\ batches = <<>> /\ bank = "same" /\ hist = <<>>
 
-TReset(c) == /\ cfg' = c /\ epoch' = 0 /\ phase' = "check" /\ best' = INF /\ bestModel' = 0 /\ since' = 0
+TReset(c) == /\ cfg' = c /\ epoch' = 0 /\ best' = INF
+             /\ phase' = (IF "start" \in DOMAIN c THEN c.start ELSE "check")   \* stand-alone get_batches traces start at "batching"
+             /\ bestModel' = 0 /\ since' = 0
              /\ stopped' = FALSE /\ version' = 0 /\ step' = 0 /\ batches' = <<>> /\ bank' = "same" /\ hist' = <<>>
 
 AllTrue(gs) == \A i \in 1..Len(gs) : gs[i][2]
@@ -45,24 +47,34 @@ ExpRet(ev)  == IF cfg.kind = "epochs" THEN ev.epoch >= cfg.epochs
                ELSE IF MonNone(ev) THEN FALSE ELSE NewSince(ev) > cfg.patience
 ExpBest(ev) == IF cfg.kind = "epochs" THEN ev.model
                ELSE IF Improved(ev) THEN ev.model ELSE bestModel
-StopCheckGuards(ev) == <<
+(* cfg.focus (optional): "all" (default) every guard; "stop": only the stopping-rule guards, the trace is
+   projected on StopCheck/Return events (so a batching defect cannot raise a stopping alarm); "batch": loop and
+   batching guards only, the stopping verdict is taken from the event. *)
+Focus == IF "focus" \in DOMAIN cfg THEN cfg.focus ELSE "all"
+StopLoopGuards(ev) == <<
    <<"StopCheck: the loop is at its stopping-condition call", phase = "check">>,
    <<"StopCheck: epoch counter", ev.epoch = epoch>>,
-   <<"StopCheck: the model passed is the current model", ev.model = version>>,
+   <<"StopCheck: the model passed is the current model", ev.model = version>> >>
+StopRuleGuards(ev) == <<
    <<"StopCheck: a training loss is passed exactly after the first epoch", ev.tlNone = (epoch = 0)>>,
    <<"StopCheck: a validation loss is passed exactly when validation data exists and an epoch has run",
         ev.vlNone = (epoch = 0 \/ ~cfg.hasval)>>,
    <<"StopCheck: stops exactly when the rule says so (patience / min_delta / epoch count)", ev.ret = ExpRet(ev)>>,
    <<"StopCheck: best_model is the model of the best monitored loss (last model for EpochStop)", ev.best = ExpBest(ev)>> >>
+StopCheckGuards(ev) ==
+  CASE Focus = "stop"  -> <<<<"StopCheck: epoch counter", ev.epoch = epoch /\ phase = "check">>>> \o StopRuleGuards(ev)
+    [] Focus = "batch" -> StopLoopGuards(ev)
+    [] OTHER           -> StopLoopGuards(ev) \o StopRuleGuards(ev)
 StopCheck(ev) ==
   /\ AllTrue(StopCheckGuards(ev))
   /\ best' = IF cfg.kind = "patience" /\ Improved(ev) THEN Mon(ev) ELSE best
-  /\ bestModel' = ExpBest(ev)
+  /\ bestModel' = IF Focus = "batch" THEN ev.best ELSE ExpBest(ev)
   /\ since' = IF cfg.kind = "patience" THEN NewSince(ev) ELSE 0
   /\ stopped' = ev.ret
   /\ hist' = IF MonNone(ev) THEN hist ELSE Append(hist, Mon(ev))
-  /\ phase' = IF ev.ret THEN "done" ELSE "batching"
-  /\ UNCHANGED <<cfg, epoch, version, step, batches, bank>>
+  /\ phase' = IF ev.ret THEN "done" ELSE IF Focus = "stop" THEN "check" ELSE "batching"
+  /\ epoch' = IF Focus = "stop" THEN epoch + 1 ELSE epoch
+  /\ UNCHANGED <<cfg, version, step, batches, bank>>
 
 (* ---------------- MakeBatches / ValBatches ------------------------------------------------- *)
 (* ev : [obs : Seq([mi, batch, idx : Seq(Nat)])]  -- one record per (co-batched multi-image, type, batch);
@@ -81,7 +93,9 @@ BatchGuards(ev, L, B, keyed) == <<
            /\ (o1.batch # o2.batch => Range(o1.idx) \cap Range(o2.idx) = {})
            /\ Cardinality(Range(o1.idx)) = Len(o1.idx)>>,
    <<"Batches: identity order when no key is given",
-        keyed \/ \A o \in Range(ev.obs) : \A i \in 1..Len(o.idx) : o.idx[i] = (o.batch - 1) * B + (i - 1)>> >>
+        keyed \/ \A o \in Range(ev.obs) : \A i \in 1..Len(o.idx) : o.idx[i] = (o.batch - 1) * B + (i - 1)>>,
+   <<"Batches: the device axis only reshapes, never reorders (same key, one device, gives the same order)",
+        ("ref" \in DOMAIN ev) => \A o \in Range(ev.obs), r \in Range(ev.ref) : r.batch = o.batch => r.idx = o.idx>> >>
 MakeBatchesGuards(ev) == <<<<"MakeBatches: the loop is about to start an epoch", phase = "batching">>>>
                          \o BatchGuards(ev, cfg.L, cfg.B, cfg.keyed)
 MakeBatches(ev) ==
